@@ -3,6 +3,7 @@ import XixiKV.Proofs.ZeroExt
 import XixiKV.Proofs.TornZero
 import XixiKV.Proofs.Truncate
 import XixiKV.Proofs.TransEq3
+import XixiKV.Proofs.TransEq3Trunc
 /-!
 # C03 — crash recovery, and the atomicity part of C04
 
@@ -504,5 +505,17 @@ theorem C03_translated_next_sat (d f buf0 pool0 : ByteArray) (m fid : Nat) (vali
 
 example : ∃ d f : ByteArray, 0 < d.size ∧ (100 : Nat) ≤ d.size ∧ f.size + d.size < 2^46 ∧ f.size % BS = 32765 :=
   ⟨zeros 40000, zeros 32765, by simp, by simp, by simp, by simp [BS]⟩
+
+/-- `(*DataFile).Truncate` as it stands in /repo — what recovery calls with `reader.ValidEnd()` to drop a torn
+    tail: on an open file in the writer state of `file` it cuts the file to `size` bytes and sets the writer state
+    to `(size / BS, size % BS)` (so the invariant every other translated-function theorem assumes holds again);
+    a size at or beyond the end changes nothing. -/
+theorem C03_translated_Truncate (file : ByteArray) (size : Nat) (h : file.size / BS < 2^32) :
+    Generated.Trans.datafile.Truncate file (file.size / BS) (file.size % BS) false (size : Int)
+      = if size ≥ file.size then ((none, file.size / BS, file.size % BS), file)
+        else ((none, size / BS, size % BS), file.extract 0 size) :=
+  TransEq.trans_Truncate_eq file size h
+
+example : Generated.Trans.datafile.Truncate ⟨#[1, 2, 3, 4, 5]⟩ 0 5 false 2 = ((none, 0, 2), ⟨#[1, 2]⟩) := by decide
 
 end XixiKV.C03
